@@ -422,6 +422,15 @@ fn flw_direct_body(sc: SCase) -> Arc<dyn Fn(&Arc<Sched>) -> SObs + Send + Sync> 
             )
             .map_err(|e| ("write-error".to_string(), e.to_string()))?;
         }
+        // flush() of the writer itself: when it returns, everything is in the file (synchronous
+        // modes; the writer's own flusher thread may or may not have run meanwhile)
+        if !sc.mode.is_async() {
+            flw.flush().map_err(|e| ("flush-error".to_string(), e.to_string()))?;
+            let got = std::fs::read(env.dir.join("app.log")).unwrap_or_default();
+            if got != accepted {
+                return Err(("missing-after-flush".to_string(), format!("FileLogWriter::flush() returned: the file holds {:?}, written were {:?}", String::from_utf8_lossy(&got), String::from_utf8_lossy(&accepted))));
+            }
+        }
         match sc.term {
             Term::Shutdown => flw.shutdown(),
             Term::DropLast | Term::DropLastUnwinding => {}
